@@ -7,7 +7,9 @@ import itertools
 import extract
 from lib import hx
 
-EXTRACT = ['poslayout']
+EXTRACT = ['versions', 'poslayout', 'gen.c04codec']
+EXTRA_PROPS = ['C04Codec']
+
 RULE = ("all 369 known versions x full product of per-axis boundary values (6x5x6 = 180 triples) x "
         "encode+decode; every single-bit and sign-boundary 64-bit word decoded under every version; "
         "seeded random triples; chunk-section positions and block records on both sides of protocol "
@@ -66,6 +68,49 @@ def run(ctx):
     known = list(minecraft.KNOWN_PROTOCOL_VERSIONS)
     idx = minecraft.PROTOCOL_VERSION_INDICES
     table = dict(extract.pos_layout_table())
+    # Model/C04Codec.lean: reader and writer each with its OWN version test, over the live version table
+    from minecraft.networking.packets import PacketBuffer
+    import io as _io
+    vlines, vimpl = [], []
+    for v in [rng.choice(known) for _ in range(ctx.scale(40, 369))] + [443, 442, 404, 476, 477, 740, 741, 9999]:
+        cxv = ConnectionContext(protocol_version=v)
+        x, y, z = rng.choice([0, -1, 33554431, -33554432, 5]), rng.choice([0, -1, 2047, -2048, 70]), rng.choice([0, -1, 33554431, -33554432, 7])
+        buf = PacketBuffer()
+        try:
+            Position.send_with_context(Position(x, y, z), buf, cxv)
+            data = buf.get_writable()
+            vimpl.append('ok ' + data.hex())
+        except KeyError:
+            data = None
+            vimpl.append('err:other')
+        vlines.append('posv.enc live %d %d %d %d' % (v, x, y, z))
+        raw = data if data is not None else bytes(rng.randrange(256) for _ in range(8))
+        try:
+            p_ = Position.read_with_context(_io.BytesIO(raw + b'\x2a'), cxv)
+            vimpl.append('ok %d %d %d 2a' % (p_.x, p_.y, p_.z))
+        except KeyError:
+            vimpl.append('err:other')
+        vlines.append('posv.dec live %d %s' % (v, (raw + b'\x2a').hex()))
+        rx, ry, rz, bid = rng.randrange(16), rng.randrange(16), rng.randrange(16), rng.choice([0, 1, 300, 2 ** 20, 2 ** 32 + 5])
+        buf = PacketBuffer()
+        try:
+            MBC.Record.send_with_context(MBC.Record(x=rx, y=ry, z=rz, block_state_id=bid), buf, cxv)
+            rdata = buf.get_writable()
+            vimpl.append('ok ' + rdata.hex())
+            vlines.append('recordv.enc live %d %d %d %d %d' % (v, rx, ry, rz, bid))
+            r_ = MBC.Record.read_with_context(_io.BytesIO(rdata + b'\x77'), cxv)
+            vimpl.append('ok %d %d %d %d 77' % (r_.x, r_.y, r_.z, r_.block_state_id))
+            vlines.append('recordv.dec live %d %s' % (v, (rdata + b'\x77').hex()))
+        except KeyError:
+            vimpl.append('err:other')
+            vlines.append('recordv.enc live %d %d %d %d %d' % (v, rx, ry, rz, bid))
+        except Exception as e:
+            vimpl.append('err:%s' % type(e).__name__)
+            vlines.append('recordv.enc live %d %d %d %d %d' % (v, rx, ry, rz, bid))
+    for line, mo, g in zip(vlines, ctx.driver.ask(vlines), vimpl):
+        ctx.case(('codec-by-version', line))
+        if mo != g and not (g.startswith('err:') and mo.startswith('err:')):
+            ctx.disagree('Position / Record codec under a version (reader and writer tests separate)', line, mo, g)
     # ---- oracle on the table itself (the property's version clause), recomputed live
     flags = [table[v] for v in known]
     for v in known:
